@@ -35,6 +35,8 @@ func main() {
 		rep = suiteAsm(*tier, *seed, *model)
 	case "C15":
 		rep = suiteStruct(*tier, *seed, *model)
+	case "C16":
+		rep = suiteRecompose(*tier, *seed, *model)
 	case "C18":
 		rep = suiteConvert(*tier, *seed, *model)
 	case "C19":
